@@ -815,8 +815,15 @@ def main(tier):
     # correspondence with the Coq model: one Coq case per (phase, stored order)
     terms = []
     owner = []
+    # (the implementation's results for ALL stored orders were compared with each other by the oracle
+    # above; the model's independence of the stored order is theorem C05_storage_independent; so one
+    # stored order per well-formed phase - a different one from phase to phase - is evaluated in Coq,
+    # and every stored order of a malformed phase, where duplicate ids make the order matter)
     for ci, (c, rs) in enumerate(zip(cases, results)):
-        for perm, r in zip(c["orders"], rs):
+        pairs = list(zip(c["orders"], rs))
+        if is_wf(c["stmts"]) and len({json.dumps(r, sort_keys=True, default=str) for r in rs}) == 1:
+            pairs = [pairs[ci % len(pairs)]]
+        for perm, r in pairs:
             terms.append(case_term([c["stmts"][i] for i in perm], r))
             owner.append((ci, perm))
     n_eval = 0
@@ -874,10 +881,12 @@ def main(tier):
             if r[0] != "ok":
                 excs[r[1]] = excs.get(r[1], 0) + 1
     rep.coverage.update(
-        evaluations=len(terms), phases=len(cases), wellformed_phases_checked_by_oracle=n_wf,
+        evaluations=sum(len(rs) for rs in results), phases=len(cases), wellformed_phases_checked_by_oracle=n_wf,
         distinct_nontrivial=distinct,
-        rule="evaluations = (phase, stored order) pairs; non-trivial = the lowered tree has >= 2 leaves or the "
-             "lowering raised; distinct by the statement list",
+        rule="evaluations = (phase, stored order) pairs run through the real create_ast_from_phase + lower_node "
+             "and judged by the oracle; traces_validated_against_impl = pairs also evaluated in the Coq model "
+             "(one stored order per well-formed phase, all of them for malformed phases); non-trivial = the "
+             "lowered tree has >= 2 leaves or the lowering raised; distinct by the statement list",
         traces_validated_against_impl=n_eval, model_impl_disagreements=len(mism),
         input_distribution=dict(dist, statements_per_phase={str(k): v for k, v in sorted(sizes.items())},
                                 malformed_kinds=mal, impl_exceptions=excs),
